@@ -42,6 +42,9 @@ def check(case, res):
         if len(rq) != len(set(rq)):
             bad.append(('one_pending', 'one_pending_wakeup_per_routine', i,
                         'after op %d %s a routine has two pending wake-ups: %s' % (i, op, s['queue'])))
+        if any(p != -1 for p in s.get('parents', [])):
+            bad.append(('parent_left', 'thread_stack_restored', i,
+                        'after op %d %s a routine still has a parent: %s' % (i, op, s['parents'])))
         if any(x == 1 for x in s['states']):
             bad.append(('running_outside', 'thread_stack_restored', i,
                         'after op %d %s a routine is still Running' % (i, op)))
@@ -57,6 +60,9 @@ def check(case, res):
                                     i, op, prev['states'][r], s['states'][r], want, s['out'])))
                 if k == 'reset':
                     last_next_stop.pop(r, None)
+                if k == 'stop' and prev['states'][r] != 1 and s.get('lastv', [[0]] * nr)[r] != [0]:
+                    bad.append(('stop_clears', 'routine_transitions', i,
+                                'op %d %s left _last_value = %s (documented: None)' % (i, op, s['lastv'][r])))
                 if k in ('reset', 'stop') and prev['states'][r] != 1 and not s.get('fresh', [True] * nr)[r]:
                     bad.append(('not_initial', 'routine_transitions', i,
                                 'op %d %s left the old generator in place: the routine is not back in its initial state' % (i, op)))
@@ -69,6 +75,10 @@ def check(case, res):
                 if b == 3 and (s['out'] != PAUSED or s['states'][r] != 3):
                     bad.append(('paused', 'paused_until_resume', i,
                                 'op %d next() on a Paused routine: outcome %s state %d' % (i, s['out'], s['states'][r])))
+                tv = (prev.get('terms') or [None] * nr)[r]
+                if b == 4 and tv is not None and s['out'] != [0] + tv:
+                    bad.append(('terminal_returned', 'done_is_absorbing_until_reset', i,
+                                'op %d next() on a Done routine whose recorded terminal value is %s gave %s' % (i, tv, s['out'])))
                 if b == 4 and s['states'][r] != 4:
                     bad.append(('done', 'done_is_absorbing_until_reset', i,
                                 'op %d next() on a Done routine left it in state %d' % (i, s['states'][r])))
@@ -85,14 +95,31 @@ def check(case, res):
             if k in ('signal', 'unhang'):
                 cc = c[1]
                 pw = prev['cells'][cc]['waiting']
-                fire = k == 'unhang' or prev['cells'][cc]['test']
-                if fire:
+                tcode = prev['cells'][cc]['test']          # False/True, or 0/1, or 2/3 = the test callable raises
+                raises = tcode in (2, 3) and tcode is not True
+                fire = k == 'unhang' or (bool(tcode) and not raises)
+                if raises and k == 'signal':
+                    if s['out'][0] != 1 or s['cells'][cc]['waiting'] != pw or s['queue'] != prev['queue']:
+                        bad.append(('signal_test_raises', 'cond_never_before', i,
+                                    'op %d %s: the test callable raises; outcome %s, waiting %s -> %s' % (
+                                        i, op, s['out'], pw, s['cells'][cc]['waiting'])))
+                elif fire:
                     # one pending wake-up per routine: every routine that was waiting has exactly one
                     # entry afterwards (also if it already had one), the others keep what they had
                     def pend(q, r): return sum(1 for e in q if e[1] == r)
                     others = set(e[1] for e in prev['queue']) | set(e[1] for e in s['queue'])
                     wrong = [r for r in set(pw) if pend(s['queue'], r) != 1] + \
                             [r for r in others - set(pw) if pend(s['queue'], r) != pend(prev['queue'], r)]
+                    # FIFO: the woken routines are queued in the order in which they waited (last wait counts)
+                    order = []
+                    for r in pw:
+                        if r in order:
+                            order.remove(r)
+                        order.append(r)
+                    queued = [e[1] for e in s['queue'] if e[1] in set(pw) and e[0] == s['main_secs']]
+                    if not wrong and queued != order:
+                        bad.append(('signal_order', 'cond_resume_exactly_once_after_signal', i,
+                                    'op %d %s: routines waited in order %s but are queued in order %s' % (i, op, order, queued)))
                     if s['cells'][cc]['waiting'] or wrong:
                         bad.append(('signal_once', 'cond_resume_exactly_once_after_signal', i,
                                     'op %d %s with waiting %s: queue %s -> %s, still waiting %s' % (
@@ -125,12 +152,27 @@ def check(case, res):
                 bad.append(('wait_registers', 'wait_registers_thread_player', i,
                             'op %d %s ran routine %d (and routines nested below it); a wait registered %s instead of the '
                             'routine playing on the clock (%d)' % (i, op, root, [r for r in new if r != root], root)))
+        # the clock re-schedules the woken routine iff it returned a number (int/float, not bool), at time + delta.
+        # Only judged when the bodies made no calls during this op (they could have scheduled things themselves).
+        if op[0] == 'tick' and prev['queue']:
+            t0, r0 = prev['queue'][0]
+            made_calls = any(e[1] == 3 for e in (res.get('log') or [])[prev.get('loglen', 0):s['loglen']])
+            mine = [e for e in s['queue'] if e[1] == r0]
+            if not made_calls and s['out'][0] == 0:
+                number = s['out'][1] in (1, 7)
+                want = [[t0 + s['out'][2], r0]] if number else []
+                if mine != want:
+                    bad.append(('reschedule', 'routine_transitions', i,
+                                'op %d tick: routine %d woken at %s returned %s; its wake-ups afterwards: %s, expected %s' % (
+                                    i, r0, t0, s['out'][1:], mine, want)))
         if op[0] == 'tick':
             last_next_stop.clear()
         for cc, x in enumerate(s['cells']):
             if prev['cells'][cc]['flow'] and prev['cells'][cc]['test'] and x['value'] != prev['cells'][cc]['value']:
                 bad.append(('rebound', 'flowvar_single_assignment', i, 'op %d %s changed the value of a bound FlowVar' % (i, op)))
         prev = s
+    for t in res.get('chain_bad') or []:
+        bad.append(('parent_chain', 'thread_stack_restored', -1, t))
     # M4: what the bodies themselves saw (log entries [rid, tag, ...])
     for e in res.get('log') or []:
         rid, tag = e[0], e[1]
